@@ -82,7 +82,7 @@ def forbidden_scan():
     return bad
 
 
-def coq_build(pid):
+def coq_build(pid, tier="quick"):
     """returns (base_ok, [(file, ok, assumptions, output)])"""
     with Lock("meddly-verif-coq.lock"):
         # regenerate the translated leaf definitions from /repo
@@ -108,7 +108,25 @@ def coq_build(pid):
             rr = subprocess.run(["timeout", "600", "coqc", "-Q", "theories", "Meddly", f], cwd=COQ,
                                 capture_output=True, text=True)
             out = rr.stdout + rr.stderr
-            return (os.path.basename(f), rr.returncode == 0, out)
+            ok = rr.returncode == 0
+            if ok and tier == "thorough":
+                # independent re-check of the compiled file and everything it depends on
+                mod = "Meddly.Properties." + os.path.basename(f)[:-2]
+                ck = subprocess.run(["timeout", "900", "coqchk", "-silent", "-o", "-Q", "theories", "Meddly", mod],
+                                    cwd=COQ, capture_output=True, text=True)
+                cko = ck.stdout + ck.stderr
+                m = re.search(r"\* Axioms:(.*?)\n\s*\n\* Constants/Inductives relying on type-in-type:(.*?)\n", cko, re.S)
+                axs = m.group(1).strip() if m else "?"
+                if ck.returncode != 0 or not m:
+                    ok = False
+                    out += "\nCOQCHK-FAILED rc=%d\n%s" % (ck.returncode, cko[-1500:])
+                else:
+                    out += "\nCOQCHK axioms=%s type-in-type=%s\n" % (" ".join(axs.split()), " ".join(m.group(2).split()))
+                    if axs != "<none>":
+                        # axioms of loaded libraries are listed by name; they are judged like
+                        # the ones Print Assumptions reports
+                        out += "Axioms:\n" + "\n".join("  %s : _" % a.strip() for a in axs.splitlines() if a.strip()) + "\n"
+            return (os.path.basename(f), ok, out)
 
         with ThreadPoolExecutor(max_workers=8) as ex:
             for name, ok, out in ex.map(one, files):
@@ -341,7 +359,7 @@ def main():
                 exe_san = buildlib.build("/repo", san=True)
             except SystemExit:
                 exe_san = None
-        base_ok, proofs, tr_ok = coq_build(pid)
+        base_ok, proofs, tr_ok = coq_build(pid, tier)
         mmodel = os.path.join(VERIF, "ocaml", "mmodel")
         bad = forbidden_scan()
         obligations = len(proofs)
@@ -353,8 +371,10 @@ def main():
             unknown = [a for a in axioms if a.split(".")[-1] not in {x.split(".")[-1] for x in ALLOWED_AXIOMS}]
             if ok and not unknown:
                 discharged += 1
-                trusted.append("%s: %s" % (name, "closed under the global context" if not axioms
-                                           else "axioms: " + ", ".join(axioms)))
+                trusted.append("%s: %s%s" % (name, "closed under the global context" if not axioms
+                                             else "axioms: " + ", ".join(axioms),
+                                             "; coqchk re-checked it and its dependencies (axioms <none>)"
+                                             if "COQCHK axioms=<none>" in out else ""))
             else:
                 failed_thms.append((name, out[-1500:], unknown))
         if bad:
